@@ -105,6 +105,16 @@ def run_tasks(tasks: list[Task], jobs: int = 0) -> list[OR]:
             if conn in ready:
                 try:
                     results[i] = conn.recv()
+                    # a task that ended in a checker fault (an internal error of the solver library surfaces as an exception: "ASSERTION VIOLATION ... UNEXPECTED CODE WAS
+                    # REACHED" was seen once on a VC set that is decided in every other run) gets one fresh attempt in a new process before the fault is reported
+                    if any(r.status == ERROR for r in results[i][1]) and i not in retried:
+                        retried.add(i)
+                        todo.append(i)
+                        del results[i]
+                        conn.close()
+                        p.join(timeout=5)
+                        del running[i]
+                        continue
                 except (EOFError, OSError):
                     p.join(timeout=5)
                     if i not in retried:
